@@ -135,6 +135,25 @@ def oracle(ck):
             idx2 = np.arange(h + 3, N - h - 3)
             if len(idx2) and np.max(np.abs(yv2[idx2] - p(idx2 + sv[idx2]))) > 1e-8 * float(np.sum(np.abs(tp))) * 5:
                 ck.violation("time-varying shift does not interpolate a degree-%d polynomial at interior samples (order %d)" % (deg, order), inp, tag="varying")
+    # per-sample shifts that differ only slightly from each other: every sample still uses its OWN fractional delay
+    for order in (3, 5, 31):
+        h = (order + 1) // 2; N = 200
+        sv = 2.5 + 4e-6 * np.arange(N) / N * ck.rng.choice([1.0, 3.0])
+        xr = np.array([ck.rng.uniform(-1, 1) for _ in range(N)])
+        yv = np.asarray(timeshift(xr, sv, order=order))
+        idx = np.arange(h + 4, N - h - 4)
+        ref = np.array([np.asarray(timeshift(xr, np.array(float(sv[i])), order=order))[i] for i in idx])
+        if np.max(np.abs(yv[idx] - ref)) > 1e-11 * (1 + np.max(np.abs(ref))):
+            ck.violation("time-varying shifts 2.5 + tiny drift: sample-wise result differs from the constant-shift path called per sample by %g (order %d)" % (float(np.max(np.abs(yv[idx] - ref))), order),
+                         dict(order=order, shifts="2.5 + 4e-6*n/N"), tag="drift")
+    # DataFrame wrapper on frames whose index is not 0..N-1 (after truncation, time-stamped): positional, not label, assignment
+    base = pd.DataFrame({"a": np.sin(np.arange(120) / 5.0)})
+    for lab, frame in (("sliced", base.iloc[20:100]), ("time index", base.set_index(pd.Index(np.arange(120) * 0.25 + 1000.0)))):
+        o = df_timeshift(frame, 4.0, 0.625, columns=["a"])
+        exp = np.asarray(timeshift(frame["a"].to_numpy(), 0.625 * 4.0))
+        got = o["a_shifted"].to_numpy()
+        if len(got) != len(exp) or not np.allclose(got, exp, atol=1e-14, equal_nan=False):
+            ck.violation("df_timeshift on a %s frame does not return timeshift(column) row by row" % lab, dict(frame=lab), tag="df-index")
     # DataFrame wrapper: seconds*fs samples, selected numeric columns only
     df = pd.DataFrame({"a": np.sin(np.arange(100) / 7.0), "b": np.arange(100.0), "s": ["x"] * 100})
     fs, sec = 4.0, 0.625
